@@ -894,7 +894,7 @@ class Normalizer:
             if inl is not None:
                 return inl
             # if (!x) A else B  ->  if (x) B else A   (only when both branches exist)
-            if el and c[0] == "bin" and c[1] == "==" and c[3] == ("num", 0) and not (c[2][0] == "bin"):
+            if el and c[0] == "bin" and c[1] == "==" and c[3] == ("num", 0) and not (c[2][0] == "bin" and c[2][1] not in ("&", "|", "^")):
                 c, th, el = self.truth(c[2]), el, th
             # both branches assign the same lvalue once  ->  conditional expression
             if len(th) == 1 and len(el) == 1 and th[0][0] == "expr" and el[0][0] == "expr":
@@ -944,7 +944,7 @@ class Normalizer:
         if op == "=" and rhs[0] == "cond":
             rhs = ("cond", self.truth(rhs[1]), rhs[2], rhs[3])
             c = rhs[1]
-            if c[0] == "bin" and c[1] == "==" and c[3] == ("num", 0) and c[2][0] != "bin":
+            if c[0] == "bin" and c[1] == "==" and c[3] == ("num", 0) and not (c[2][0] == "bin" and c[2][1] not in ("&", "|", "^")):
                 rhs = ("cond", self.truth(c[2]), rhs[3], rhs[2])
         return [("expr", ("asg", op, lhs, rhs))]
 
